@@ -183,7 +183,7 @@ func newExec(ld *Loaded) *Exec {
 		inlineMax: 14, maxStates: 12000, loopInfo: map[*ssa.Function]*LoopInfo{}, pureCache: map[*ssa.Function]*effectSummary{},
 		useContracts: true, noContractFor: map[string]bool{}, assumed: map[string]int{},
 		initDone: map[*ssa.Package]bool{}, inInit: map[*ssa.Package]bool{}, globalVals: map[*ssa.Global]*Term{}, initStates: map[*ssa.Package]*State{},
-		iterPrefix: map[string]*Term{}, arrayFam: map[string]int{}, wsCache: map[*ssa.Function]*WriteSet{}, joins: map[*ssa.Function]*joinInfo{}, noMerge: os.Getenv("ICSVC_NOMERGE") != ""}
+		iterPrefix: map[string]*Term{}, arrayFam: map[string]int{}, wsCache: map[*ssa.Function]*WriteSet{}, precallSeen: map[string]bool{}, joins: map[*ssa.Function]*joinInfo{}, noMerge: os.Getenv("ICSVC_NOMERGE") != ""}
 }
 
 // ---------------------------------------------------------------- property specs
@@ -299,7 +299,7 @@ func cmdDump(args []string) int {
 }
 
 type checkOpts struct {
-	repo, verif, prop, tier, only string
+	repo, verif, prop, tier, only, out string
 	timeout                      int
 	keep                         bool
 	workers                      int
@@ -311,6 +311,7 @@ func cmdCheck(args []string) int {
 	var o checkOpts
 	fs.StringVar(&o.repo, "repo", "/repo", "repository under test")
 	fs.StringVar(&o.verif, "verif", "/verif", "verification directory")
+	fs.StringVar(&o.out, "out", "", "directory for evidence/, replays/ and out/ (default: the verification directory)")
 	fs.StringVar(&o.prop, "prop", "", "property id")
 	fs.StringVar(&o.tier, "tier", "quick", "quick|thorough")
 	fs.StringVar(&o.only, "only", "", "regexp: only obligations matching")
@@ -319,10 +320,13 @@ func cmdCheck(args []string) int {
 	fs.IntVar(&o.workers, "workers", 6, "parallel queries")
 	fs.BoolVar(&o.trace, "trace", false, "engine panics are fatal")
 	fs.Parse(args)
+	if o.out == "" {
+		o.out = o.verif
+	}
 	if o.timeout == 0 {
-		o.timeout = 10
+		o.timeout = 90
 		if o.tier == "thorough" {
-			o.timeout = 60
+			o.timeout = 240
 		}
 	}
 	return runCheck(&o)
@@ -488,7 +492,7 @@ func runCheck(o *checkOpts) int {
 	// solve
 	smtDir := filepath.Join(os.TempDir(), fmt.Sprintf("icsvc-%s-%d", o.prop, os.Getpid()))
 	if o.keep {
-		smtDir = filepath.Join(o.verif, "out", "smt", o.prop)
+		smtDir = filepath.Join(o.out, "out", "smt", o.prop)
 	}
 	os.MkdirAll(smtDir, 0o755)
 	if !o.keep {
@@ -522,6 +526,11 @@ func runCheck(o *checkOpts) int {
 		if r.query == nil && !r.rawSMT {
 			continue
 		}
+		if o.tier != "thorough" && !r.Claimed && r.Kind != "cover" && r.Kind != "consistency" {
+			// stretch obligations (never claimed) are only attempted in the thorough tier
+			r.Verdict = "skipped"
+			continue
+		}
 		wg.Add(1)
 		go func(r *ObResult) {
 			defer wg.Done()
@@ -550,6 +559,7 @@ func report(o *checkOpts, spec *PropSpec, ld *Loaded, results []*ObResult, engin
 	var viol []string
 	coversOK := 0
 	exit := 0
+	knownHits := []string{}
 	for _, r := range results {
 		solverTime += r.TimeS
 		if r.Kind == "consistency" {
@@ -568,6 +578,9 @@ func report(o *checkOpts, spec *PropSpec, ld *Loaded, results []*ObResult, engin
 			continue
 		}
 		if !r.Claimed {
+			if r.Verdict == "skipped" {
+				continue
+			}
 			stretchN++
 			if r.Verdict == "unsat" {
 				stretchOK++
@@ -589,8 +602,7 @@ func report(o *checkOpts, spec *PropSpec, ld *Loaded, results []*ObResult, engin
 		// not discharged: known finding?
 		if kf := known.match(spec.ID, r.Name); kf != nil {
 			fmt.Printf("KNOWN-FINDING: property=%s %s\n", spec.ID, kf.Text)
-			discharged++ // accounted for, not a new violation
-			byBackend["known-finding"]++
+			knownHits = append(knownHits, r.Name) // accounted for in known_findings.txt, not discharged and not a new violation
 			continue
 		}
 		violations++
@@ -642,15 +654,16 @@ func report(o *checkOpts, spec *PropSpec, ld *Loaded, results []*ObResult, engin
 			"samples":                  samples,
 			"contract_files":           ld.contractFiles,
 			"engine_errors":            engineErrs,
+			"known_findings_hit":       knownHits,
 			"unclaimed":                unclaimedList(results),
 		},
 		"assumptions": assumptions,
 		"wall_s":      wall,
 		"violations":  violations,
 	}
-	os.MkdirAll(filepath.Join(o.verif, "evidence"), 0o755)
+	os.MkdirAll(filepath.Join(o.out, "evidence"), 0o755)
 	eb, _ := json.MarshalIndent(ev, "", " ")
-	os.WriteFile(filepath.Join(o.verif, "evidence", spec.ID+".json"), eb, 0o644)
+	os.WriteFile(filepath.Join(o.out, "evidence", spec.ID+".json"), eb, 0o644)
 	fmt.Printf("%s: %d/%d claimed obligations discharged, %d stretch (%d ok), %d covers ok, %d engine errors, %.1fs (load %.1f, vcgen %.1f)\n",
 		spec.ID, discharged, claimed, stretchN, stretchOK, coversOK, len(engineErrs), wall, tLoad, tGen)
 	if exit == 0 && len(engineErrs) > 0 {
@@ -730,7 +743,7 @@ func seedFromEnv() int {
 }
 
 func writeReplay(o *checkOpts, prop string, r *ObResult) string {
-	dir := filepath.Join(o.verif, "replays", prop)
+	dir := filepath.Join(o.out, "replays", prop)
 	os.MkdirAll(dir, 0o755)
 	fn := filepath.Join(dir, sanitizeFile(r.Name)+".json")
 	out := r.output
